@@ -504,6 +504,162 @@ func expectedEvents(tn *kit.TNode, addr types.Address) map[types.Hash256]wantEve
 	return out
 }
 
+// checkEventPayload checks the data an event carries against the block it
+// belongs to and the reference ledger before that block: the paid element, the
+// Missed flag of contract resolutions, and the spent elements of v1 transactions.
+func checkEventPayload(ev wallet.Event, tn *kit.TNode, addr types.Address) error {
+	var p *kit.TNode
+	for a := tn; a != nil; a = a.Parent {
+		if a.Index() == ev.Index {
+			p = a
+			break
+		}
+	}
+	if p == nil {
+		return fmt.Errorf("its block is not an ancestor of the tip")
+	}
+	if !ev.Timestamp.Equal(p.Block.Timestamp) {
+		return fmt.Errorf("timestamp %v, the block's is %v", ev.Timestamp, p.Block.Timestamp)
+	}
+	var before map[types.SiacoinOutputID]types.SiacoinElement
+	if p.Parent != nil {
+		before = p.Parent.Ledger.SCE
+	}
+	paid := func(e types.SiacoinElement) error {
+		if types.Hash256(e.ID) != ev.ID {
+			return fmt.Errorf("carries element %v", e.ID)
+		}
+		if e.SiacoinOutput.Address != addr {
+			return fmt.Errorf("its element pays %v, not the wallet", e.SiacoinOutput.Address)
+		}
+		// the element as the block created it: value, maturity and leaf index
+		// never change afterwards, so the tip's ledger (if it is still unspent)
+		// or any later ledger on the path has the same
+		for a := tn; a != nil && a.Height >= p.Height; a = a.Parent {
+			if le, ok := a.Ledger.SCE[e.ID]; ok {
+				if le.SiacoinOutput != e.SiacoinOutput || le.MaturityHeight != e.MaturityHeight || le.StateElement.LeafIndex != e.StateElement.LeafIndex {
+					return fmt.Errorf("its element {%v, maturity %d, leaf %d} differs from the chain's {%v, maturity %d, leaf %d}", e.SiacoinOutput.Value, e.MaturityHeight, e.StateElement.LeafIndex, le.SiacoinOutput.Value, le.MaturityHeight, le.StateElement.LeafIndex)
+				}
+				break
+			}
+		}
+		return nil
+	}
+	switch d := ev.Data.(type) {
+	case wallet.EventPayout:
+		return paid(d.SiacoinElement)
+	case wallet.EventV1ContractResolution:
+		if err := paid(d.SiacoinElement); err != nil {
+			return err
+		}
+		fce, ok := p.Parent.Ledger.FCE[d.Parent.ID]
+		if !ok {
+			return fmt.Errorf("names contract %v, which was not live before the block", d.Parent.ID)
+		}
+		if !bytes.Equal(refl.Enc(fce.FileContract), refl.Enc(d.Parent.FileContract)) {
+			return fmt.Errorf("carries a contract body that differs from the live contract %v", d.Parent.ID)
+		}
+		wantMissed, found := false, false
+		for i := range fce.FileContract.ValidProofOutputs {
+			if d.Parent.ID.ValidOutputID(i) == d.SiacoinElement.ID {
+				found = true
+			}
+		}
+		for i := range fce.FileContract.MissedProofOutputs {
+			if d.Parent.ID.MissedOutputID(i) == d.SiacoinElement.ID {
+				found, wantMissed = true, true
+			}
+		}
+		if !found {
+			return fmt.Errorf("its element is not a payout of contract %v", d.Parent.ID)
+		}
+		if d.Missed != wantMissed {
+			return fmt.Errorf("Missed=%v but the paid output is a %s proof output", d.Missed, map[bool]string{true: "missed", false: "valid"}[wantMissed])
+		}
+	case wallet.EventV2ContractResolution:
+		if err := paid(d.SiacoinElement); err != nil {
+			return err
+		}
+		id := d.Resolution.Parent.ID
+		if id.V2RenterOutputID() != d.SiacoinElement.ID && id.V2HostOutputID() != d.SiacoinElement.ID {
+			return fmt.Errorf("its element is not a payout of contract %v", id)
+		}
+		found := false
+		for _, txn := range p.Block.V2Transactions() {
+			for _, res := range txn.FileContractResolutions {
+				if res.Parent.ID != id {
+					continue
+				}
+				found = true
+				_, expired := res.Resolution.(*types.V2FileContractExpiration)
+				if d.Missed != expired {
+					return fmt.Errorf("Missed=%v but the block resolves the contract with a %T", d.Missed, res.Resolution)
+				}
+				if fmt.Sprintf("%T", res.Resolution) != fmt.Sprintf("%T", d.Resolution.Resolution) {
+					return fmt.Errorf("carries a %T, the block has a %T", d.Resolution.Resolution, res.Resolution)
+				}
+			}
+		}
+		if !found {
+			return fmt.Errorf("the block does not resolve contract %v", id)
+		}
+	case wallet.EventV1Transaction:
+		var txn *types.Transaction
+		for i := range p.Block.Transactions {
+			if types.Hash256(p.Block.Transactions[i].ID()) == ev.ID {
+				txn = &p.Block.Transactions[i]
+			}
+		}
+		if txn == nil {
+			return fmt.Errorf("the block has no such transaction")
+		}
+		if !bytes.Equal(refl.Enc(*txn), refl.Enc(d.Transaction)) {
+			return fmt.Errorf("carries a transaction that differs from the block's")
+		}
+		created := map[types.SiacoinOutputID]types.SiacoinOutput{}
+		for _, t := range p.Block.Transactions {
+			for i, o := range t.SiacoinOutputs {
+				created[t.SiacoinOutputID(i)] = o
+			}
+		}
+		var want []types.SiacoinOutputID
+		for _, si := range txn.SiacoinInputs {
+			if si.UnlockConditions.UnlockHash() == addr {
+				want = append(want, si.ParentID)
+			}
+		}
+		if len(want) != len(d.SpentSiacoinElements) {
+			return fmt.Errorf("lists %d spent elements, the transaction spends %d outputs of the wallet", len(d.SpentSiacoinElements), len(want))
+		}
+		for i, e := range d.SpentSiacoinElements {
+			if e.ID != want[i] {
+				return fmt.Errorf("spent element %d is %v, the transaction's input is %v", i, e.ID, want[i])
+			}
+			if le, ok := before[e.ID]; ok {
+				if le.SiacoinOutput != e.SiacoinOutput {
+					return fmt.Errorf("spent element %v carries %v, the chain has %v", e.ID, e.SiacoinOutput.Value, le.SiacoinOutput.Value)
+				}
+			} else if o, ok := created[e.ID]; !ok || o != e.SiacoinOutput {
+				return fmt.Errorf("spent element %v is neither unspent before the block nor created in it with that value", e.ID)
+			}
+		}
+	case wallet.EventV2Transaction:
+		found := false
+		for _, t := range p.Block.V2Transactions() {
+			if types.Hash256(t.ID()) == ev.ID {
+				found = true
+				if !bytes.Equal(refl.Enc(t), refl.Enc(types.V2Transaction(d))) {
+					return fmt.Errorf("carries a transaction that differs from the block's")
+				}
+			}
+		}
+		if !found {
+			return fmt.Errorf("the block has no such transaction")
+		}
+	}
+	return nil
+}
+
 // checkEventsAgainstChain is the independent event oracle.
 func checkEventsAgainstChain(where string, evs []wallet.Event, tn *kit.TNode, addr types.Address) error {
 	want := expectedEvents(tn, addr)
@@ -535,6 +691,9 @@ func checkEventsAgainstChain(where string, evs []wallet.Event, tn *kit.TNode, ad
 		}
 		if len(ev.Relevant) != 1 || ev.Relevant[0] != addr {
 			return fmt.Errorf("%s: event %s lists relevant addresses %v", where, describeEvent(ev), ev.Relevant)
+		}
+		if err := checkEventPayload(ev, tn, addr); err != nil {
+			return fmt.Errorf("%s: event %s: %w", where, describeEvent(ev), err)
 		}
 	}
 	for id, w := range want {
@@ -601,6 +760,40 @@ func checkWallet(cw *c06Wallet, node *kit.Node, tn *kit.TNode, addr types.Addres
 	evs, err := allEvents(cw.store)
 	if err != nil {
 		return fmt.Errorf("%s: %w", where, err)
+	}
+	if cw.rec == nil {
+		// the store interface documents the listing: ordered by maturity height,
+		// descending, paginated, (nil, nil) past the end
+		for i := 1; i < len(evs); i++ {
+			if evs[i-1].MaturityHeight < evs[i].MaturityHeight {
+				return fmt.Errorf("%s: WalletEvents is not ordered by maturity height, descending: %d before %d at position %d", where, evs[i-1].MaturityHeight, evs[i].MaturityHeight, i)
+			}
+		}
+		var paged []wallet.Event
+		for off := 0; ; off += 3 {
+			page, err := cw.store.WalletEvents(off, 3)
+			if err != nil {
+				return fmt.Errorf("%s: %w", where, err)
+			}
+			if len(page) == 0 {
+				break
+			}
+			if len(page) > 3 {
+				return fmt.Errorf("%s: WalletEvents(%d, 3) returned %d events", where, off, len(page))
+			}
+			paged = append(paged, page...)
+		}
+		if len(paged) != len(evs) {
+			return fmt.Errorf("%s: pages of 3 return %d events, pages of 50 return %d", where, len(paged), len(evs))
+		}
+		for i := range evs {
+			if !bytes.Equal(encEvent(evs[i]), encEvent(paged[i])) {
+				return fmt.Errorf("%s: pages of 3 and pages of 50 list different events at position %d", where, i)
+			}
+		}
+		if page, err := cw.store.WalletEvents(len(evs)+1, 3); err != nil || page != nil {
+			return fmt.Errorf("%s: WalletEvents past the end returned (%d events, %v), documented is (nil, nil)", where, len(page), err)
+		}
 	}
 	got, lin := sortedEncodings(evs), sortedEncodings(linear)
 	byEnc := func(list []wallet.Event) map[string]wallet.Event {
